@@ -44,6 +44,34 @@ int main() {
       if (!ok || SX[p] != 0.0) { printf("FAIL %ld %d factor %.17g\n", idx, p, CX[p]); nfail++; break; }
     }
   }
+  // Interval averages at extreme magnitudes (module Filters' RangeW, evaluated numerically): a level splitting s far below one
+  // with an interval so long that s*(t1-t0) is of order one - natural-unit magnitudes.  With t0 = 0, t1 = c/s:
+  //   <cos> = sin(c)/c ,  <sin> = (1-cos(c))/c   (up to the sign convention of the stored sine, taken from the unaveraged table)
+  {
+    static const double S[] = {1e-3, 3.1e-17, 1e-17, 2.5e-120, 1e-300, 7.0, 4.4e15};
+    static const double C[] = {2.0, 0.5, 30.0};
+    for (double sp : S) for (double c : C) for (int d = 2; d <= 6; d += 2) {
+      n++;
+      gsl_matrix_complex* M = gsl_matrix_complex_calloc(d, d);
+      gsl_matrix_complex_set(M, 1, 1, gsl_complex_rect(sp, 0));            // one split level: pairs (0,1) and (1,k)
+      SU_vector H(M); gsl_matrix_complex_free(M);
+      size_t bs = H.GetEvolveBufferSize();
+      std::unique_ptr<double[]> avg(new double[bs]), one(new double[bs]);
+      double t1 = c / sp;
+      H.PrepareEvolve(avg.get(), 0.0, t1);
+      H.PrepareEvolve(one.get(), 0.25 * t1);                              // signs of the stored sines at a time where sin(s t) > 0
+      const double* CX = avg.get(); const double* SX = avg.get() + bs / 2; const double* S1 = one.get() + bs / 2;
+      int np = d * (d - 1) / 2; bool bad = false; double worst = 0;
+      for (int p = 0; p < np && !bad; p++) {
+        bool split = (p == 0) || (p >= d - 1 && p < 2 * d - 3);             // pair (0,1), then pairs (1,k), k = 2..d-1
+        double wc = split ? std::sin(c) / c : 1.0, ws = split ? (1 - std::cos(c)) / c : 0.0;
+        double sgn = S1[p] < 0 ? -1.0 : 1.0;
+        double e1 = std::fabs(CX[p] - wc), e2 = std::fabs(std::fabs(SX[p]) - ws);
+        if (!std::isfinite(CX[p]) || !std::isfinite(SX[p]) || !(e1 <= 1e-9) || !(e2 <= 1e-9) || (ws > 1e-6 && SX[p] * sgn < 0)) { bad = true; worst = std::max(e1, e2); }
+      }
+      if (bad) { printf("FAILX splitting=%g c=%g d=%d err=%g\n", sp, c, d, worst); nfail++; }
+    }
+  }
   printf("DONE %ld %ld\n", n, nfail);
   return 0;
 }
